@@ -171,7 +171,7 @@ pub fn run_generic(expr: &jq::Expr, json: &[u8]) -> String {
 
 /// The input with duplicate object keys collapsed, as the generic evaluator's `.` prints it
 /// (spelling of numbers preserved); `None` if that is not available.
-fn collapse_input(json: &[u8]) -> Option<String> {
+pub fn collapse_input(json: &[u8]) -> Option<String> {
     fn lit(v: &OwnedValue, out: &mut String) {
         match v {
             OwnedValue::NumberLiteral(_, l) => out.push_str(l),
